@@ -224,4 +224,163 @@ theorem reverseRule_eq (recurse : Ctx → Nat → M (Ctx × Bool)) (c : Ctx) (co
               rw [a2 _ hA]
               cases okA <;> rfl
 
+/-! ### where the reads of the rules lie -/
+
+/-- src: buffer.rs::backtrack_len -/
+def backtrackLen (b : Buf) : Nat := if b.haveOutput then b.outLen else b.idx
+
+/-- what a read of a chain rule's matching phase may be -/
+def ChainCovered (c : Ctx) (m : ChainM) (x : Rd) : Prop :=
+  (∃ i, x = .inp i ∧ c.buf.idx ≤ i ∧ i < c.buf.len ∧
+      (¬ (m.verdict = .inputFail ∧ m.R.why = .ligComp) → i < m.endIndex)) ∨
+  (∃ j, x = .out j ∧ (m.verdict = .backFail ∨ m.verdict = .matched) ∧ m.startIndex ≤ j ∧ j < backtrackLen c.buf) ∨
+  (∃ j, x = .lig j ∧ j < c.buf.outLen)
+
+theorem chainMatchI_span (c : Ctx) (nBack nIn nAhead : Nat) (fBack fIn fAhead : Nat → Nat → Bool) (m : ChainM)
+    (h : chainMatchI c nBack nIn nAhead fBack fIn fAhead = .ok m) (hidx : c.buf.idx < c.buf.len) :
+    matchInputI c nIn fIn [0, 0, 0, 0] = .ok m.R ∧
+    (m.verdict = .inputFail ↔ m.R.r.ok = false) ∧
+    c.buf.idx ≤ m.endIndex ∧ m.endIndex ≤ c.buf.len ∧
+    (m.verdict ≠ .inputFail → c.buf.idx < m.endIndex) ∧
+    (m.verdict = .backFail ∨ m.verdict = .matched → m.startIndex ≤ backtrackLen c.buf) ∧
+    (∀ x ∈ m.reads, ChainCovered c m x) := by
+  unfold chainMatchI at h
+  cases hR : matchInputI c nIn fIn [0, 0, 0, 0] with
+  | error e => simp [hR, bind, Except.bind] at h
+  | ok R =>
+    obtain ⟨r1, r2, r3, r4, r5⟩ := matchInputI_span c nIn fIn _ R hR hidx
+    simp only [hR, bind, Except.bind] at h
+    cases hok : R.r.ok with
+    | false =>
+      simp only [hok, Bool.not_false, if_true, pure, Except.pure, Except.ok.injEq] at h
+      subst h
+      have hnm : R.why ≠ .matched := fun hw => by rw [r1.mpr hw] at hok; cases hok
+      refine ⟨rfl, by simp [hok], Nat.le_max_right _ _, ?_, by simp, by simp, ?_⟩
+      · simp only
+        cases hw : R.why with
+        | matched => exact absurd hw hnm
+        | tooLong => rw [(r2 hw).2]; simp; omega
+        | ligComp => rw [r3 hw]; simp; omega
+        | iter => have := (r4 (Or.inr hw)).2; exact Nat.max_le.mpr ⟨this, by omega⟩
+      · intro x hx
+        rcases r5 x hx with ⟨i, a1, a2, a3, a4⟩ | hj
+        · refine Or.inl ⟨i, a1, a2, a3, ?_⟩
+          intro hn
+          simp only [true_and] at hn
+          exact Nat.lt_of_lt_of_le (a4 hn) (Nat.le_max_left _ _)
+        · exact Or.inr (Or.inr hj)
+    | true =>
+      have hwm : R.why = .matched := r1.mp hok
+      obtain ⟨q1, q2⟩ := r4 (Or.inl hwm)
+      simp only [hok, Bool.not_true, Bool.false_eq_true, if_false] at h
+      cases hA : matchLookaheadI c nAhead fAhead R.r.endPos with
+      | error e => simp [hA] at h
+      | ok v =>
+        obtain ⟨⟨okA, e⟩, rsA⟩ := v
+        obtain ⟨l1, l2, l3⟩ := matchLookaheadI_span c nAhead fAhead _ okA e rsA hA q2
+        have hin : ∀ x ∈ R.reads ++ rsA.map Rd.inp,
+            (∃ i, x = .inp i ∧ c.buf.idx ≤ i ∧ i < c.buf.len ∧ i < e) ∨ (∃ j, x = .lig j ∧ j < c.buf.outLen) := by
+          intro x hx
+          rcases List.mem_append.mp hx with hx | hx
+          · rcases r5 x hx with ⟨i, a1, a2, a3, a4⟩ | hj
+            · exact Or.inl ⟨i, a1, a2, a3, by have := a4 (by simp [hwm]); omega⟩
+            · exact Or.inr hj
+          · obtain ⟨i, hi, rfl⟩ := List.mem_map.mp hx
+            have := l3 i hi
+            exact Or.inl ⟨i, rfl, by omega, by omega, this.2⟩
+        simp only [hA] at h
+        cases okA with
+        | false =>
+          simp only [Bool.not_false, if_true, pure, Except.pure, Except.ok.injEq] at h
+          subst h
+          refine ⟨rfl, by simp [hok], by simp only; omega, l2, fun _ => by simp only; omega, by simp, ?_⟩
+          intro x hx
+          rcases hin x hx with ⟨i, a1, a2, a3, a4⟩ | hj
+          · exact Or.inl ⟨i, a1, a2, a3, fun _ => a4⟩
+          · exact Or.inr (Or.inr hj)
+        | true =>
+          simp only [Bool.not_true, Bool.false_eq_true, if_false] at h
+          cases hB : matchBacktrackI c nBack fBack with
+          | error e => simp [hB] at h
+          | ok w =>
+            obtain ⟨⟨okB, st⟩, rsB⟩ := w
+            obtain ⟨k1, k2⟩ := matchBacktrackI_span c nBack fBack okB st rsB hB
+            simp only [hB] at h
+            have fin : ∀ m' : ChainM, m'.R = R → (m'.verdict = .backFail ∨ m'.verdict = .matched) →
+                m'.startIndex = st → m'.endIndex = e → m'.reads = R.reads ++ rsA.map .inp ++ rsB.map .out →
+                (Except.ok R : M MatchInI) = .ok m'.R ∧
+                (m'.verdict = .inputFail ↔ m'.R.r.ok = false) ∧
+                c.buf.idx ≤ m'.endIndex ∧ m'.endIndex ≤ c.buf.len ∧
+                (m'.verdict ≠ .inputFail → c.buf.idx < m'.endIndex) ∧
+                (m'.verdict = .backFail ∨ m'.verdict = .matched → m'.startIndex ≤ backtrackLen c.buf) ∧
+                (∀ x ∈ m'.reads, ChainCovered c m' x) := by
+              intro m' e1 e2 e3 e4 e5
+              have hv : m'.verdict ≠ .inputFail := by rcases e2 with e2 | e2 <;> simp [e2]
+              refine ⟨by rw [e1], by rw [e1, hok]; simp [hv], by rw [e4]; omega, by rw [e4]; exact l2,
+                fun _ => by rw [e4]; omega, fun _ => by rw [e3]; exact k1, ?_⟩
+              intro x hx
+              rw [e5] at hx
+              unfold ChainCovered
+              rw [e3, e4]
+              rcases List.mem_append.mp hx with hx | hx
+              · rcases hin x hx with ⟨i, a1, a2, a3, a4⟩ | hj
+                · exact Or.inl ⟨i, a1, a2, a3, fun _ => a4⟩
+                · exact Or.inr (Or.inr hj)
+              · obtain ⟨j, hj, rfl⟩ := List.mem_map.mp hx
+                exact Or.inr (Or.inl ⟨j, rfl, e2, k2 j hj⟩)
+            cases okB with
+            | false =>
+              simp only [Bool.not_false, if_true, pure, Except.pure, Except.ok.injEq] at h
+              subst h
+              exact fin ⟨R, .backFail, st, e, _⟩ rfl (Or.inl rfl) rfl rfl rfl
+            | true =>
+              simp only [Bool.not_true, Bool.false_eq_true, if_false, pure, Except.pure, Except.ok.injEq] at h
+              subst h
+              exact fin ⟨R, .matched, st, e, _⟩ rfl (Or.inr rfl) rfl rfl rfl
+
+/-- **the reads of the reverse-chaining subtable's matching phase lie in `out[start, backtrack_len) ++ info[idx, end)`** -/
+theorem revMatchI_span (c : Ctx) (back ahead : List Cov) (ok : Bool) (st e : Nat) (rs : List Rd)
+    (h : revMatchI c back ahead = .ok (ok, st, e, rs)) (hidx : c.buf.idx < c.buf.len) :
+    st ≤ backtrackLen c.buf ∧ c.buf.idx < e ∧ e ≤ c.buf.len ∧
+    ∀ x ∈ rs, (∃ i, x = .inp i ∧ c.buf.idx ≤ i ∧ i < e) ∨ (∃ j, x = .out j ∧ st ≤ j ∧ j < backtrackLen c.buf) := by
+  unfold revMatchI at h
+  cases hB : matchBacktrackI c back.length (fun g i => nthCov back i g) with
+  | error e => simp [hB, bind, Except.bind] at h
+  | ok w =>
+    obtain ⟨⟨okB, st'⟩, rsB⟩ := w
+    obtain ⟨k1, k2⟩ := matchBacktrackI_span c _ _ okB st' rsB hB
+    simp only [hB, bind, Except.bind] at h
+    have hout : ∀ x ∈ rsB.map Rd.out, ∃ j, x = .out j ∧ st' ≤ j ∧ j < backtrackLen c.buf := by
+      intro x hx
+      obtain ⟨j, hj, rfl⟩ := List.mem_map.mp hx
+      exact ⟨j, rfl, k2 j hj⟩
+    cases okB with
+    | false =>
+      simp only [Bool.not_false, if_true, pure, Except.pure, Except.ok.injEq, Prod.mk.injEq] at h
+      obtain ⟨_, h2, h3, h4⟩ := h
+      subst h2 h3 h4
+      refine ⟨k1, by omega, by omega, ?_⟩
+      intro x hx
+      rcases List.mem_cons.mp hx with hx | hx
+      · exact Or.inl ⟨_, hx, Nat.le_refl _, by omega⟩
+      · exact Or.inr (hout x hx)
+    | true =>
+      simp only [Bool.not_true, Bool.false_eq_true, if_false] at h
+      cases hA : matchLookaheadI c ahead.length (fun g i => nthCov ahead i g) (c.buf.idx + 1) with
+      | error e => simp [hA] at h
+      | ok v =>
+        obtain ⟨⟨okA, e'⟩, rsA⟩ := v
+        obtain ⟨l1, l2, l3⟩ := matchLookaheadI_span c _ _ _ okA e' rsA hA (by omega)
+        simp only [hA, pure, Except.pure, Except.ok.injEq, Prod.mk.injEq] at h
+        obtain ⟨_, h2, h3, h4⟩ := h
+        subst h2 h3 h4
+        refine ⟨k1, by omega, l2, ?_⟩
+        intro x hx
+        rcases List.mem_append.mp hx with hx | hx
+        · rcases List.mem_cons.mp hx with hx | hx
+          · exact Or.inl ⟨_, hx, Nat.le_refl _, by omega⟩
+          · exact Or.inr (hout x hx)
+        · obtain ⟨i, hi, rfl⟩ := List.mem_map.mp hx
+          have := l3 i hi
+          exact Or.inl ⟨i, rfl, by omega, this.2⟩
 end RbModel.Gsub
